@@ -24,7 +24,7 @@ BASES = {
 
 def gen_spec(rng):
     n = rng.choice([1, 2, 2, 3, 3])
-    m = rng.choice([1, 1, 2])
+    m = rng.choice([1, 1, 2, 2, 3])
     N = rng.choice([0, 1, 2, 2, 3, 3, 4]) if n < 3 else rng.choice([1, 2, 3])
     pdc = rng.choice([0, 0, 0.2, 0.5])
     table = [''.join('*' if rng.random() < pdc else rng.choice('01') for _ in range(1 << n)) for _ in range(m)]
@@ -59,7 +59,15 @@ def gen_spec(rng):
         elif k < 0.65:
             cons.append(['fixSecond', g, rng.randrange(n + N)])
         elif k < 0.8:
-            cons.append(['fixType', g, rng.choice(['AND', 'OR', 'XOR', 'NAND', 'GT', 'LNOT', 'RIFF', 'ALWAYS_TRUE', 'NXOR', 'LEQ'])])
+            ty = rng.choice(['AND', 'OR', 'XOR', 'NAND', 'GT', 'LNOT', 'RIFF', 'ALWAYS_TRUE', 'NXOR', 'LEQ'])
+            kk = rng.random()
+            if kk < 0.5 or n + N < 2:
+                cons.append(['fixType', g, ty])
+            elif kk < 0.8:
+                a, b = sorted(rng.sample(range(n + N), 2))
+                cons.append(['fixBothType', g, a, b, ty])            # both predecessors and the operation
+            else:
+                cons.append(['fixSecondType', g, rng.randrange(n + N), ty])
         else:
             cons.append(['forbidWire', rng.randrange(n + N), g])
     return {'n': n, 'm': m, 'N': N, 'table': table, 'bkind': bkind, 'basis': basis, 'normalized': rng.random() < 0.3, 'cons': cons}
@@ -102,6 +110,18 @@ def make_finder(spec):
                 ttbits = ''.join('1' if gt.operator(bool(a), bool(b)) else '0' for a in (0, 1) for b in (0, 1))
                 accepted.append(['fixOne', c[1], p])
                 accepted.append(['fixType', c[1], ttbits])
+            elif c[0] == 'fixBothType':
+                gt = getattr(G, c[4])
+                f.fix_gate(c[1], first_predecessor=c[2], second_predecessor=c[3], gate_type=gt)
+                ttbits = ''.join('1' if gt.operator(bool(a), bool(b)) else '0' for a in (0, 1) for b in (0, 1))
+                accepted.append(['fixBoth', c[1], c[2], c[3]])
+                accepted.append(['fixType', c[1], ttbits])
+            elif c[0] == 'fixSecondType':
+                gt = getattr(G, c[3])
+                f.fix_gate(c[1], second_predecessor=c[2], gate_type=gt)
+                ttbits = ''.join('1' if gt.operator(bool(a), bool(b)) else '0' for a in (0, 1) for b in (0, 1))
+                accepted.append(['fixOne', c[1], c[2]])
+                accepted.append(['fixType', c[1], ttbits])
             elif c[0] == 'forbidWire':
                 f.forbid_wire(c[1], c[2])
                 accepted.append(['forbidWire', c[1], c[2]])
@@ -122,6 +142,13 @@ def expected_rejection(spec, c):
         return None if c[1] > c[2] else 'FixGateOrderError'
     if c[0] == 'fixType':
         return None if c[1] > 0 else 'FixGateOrderError'
+    if c[0] == 'fixBothType':
+        _, g, a, b, _ = c
+        if a not in gates or b not in gates:
+            return 'GateIsAbsentError'
+        return None if g > b > a else 'FixGateOrderError'
+    if c[0] == 'fixSecondType':
+        return None if c[1] > c[2] else 'FixGateOrderError'
     if c[0] == 'forbidWire':
         return None if c[1] < c[2] else 'ForbidWireOrderError'
     return None
@@ -304,7 +331,9 @@ def search(ctx):
             ctx.violation('synth.finder', f'constructor raised {err_name(e)}', input={'spec': spec})
             continue
         try:
-            circ = f.find_circuit()
+            # with and without a solver time limit (generous: the shim solver answers these sizes at once)
+            circ = f.find_circuit(time_limit=60) if k % 3 == 0 else f.find_circuit()
+            ctx.count('time_limit=' + ('60' if k % 3 == 0 else 'none'))
         except NoSolutionError:
             ex = brute_force_exists(spec, accepted) if spec['n'] + spec['N'] <= 5 or spec['N'] <= 2 else None
             if ex is True:
